@@ -456,9 +456,29 @@ func execRun(t *testing.T, sc *Scenario, x *X) (out runOutcome) {
 			x.checkFreePanics()
 		})
 	}()
-	select {
-	case <-finished:
-	case <-time.After(stuckLimit): // real time: this goroutine is outside the bubble
+	// real time (this goroutine is outside the bubble), but only time this process was seen
+	// running: the limit is consumed in one-second looks, and a look that took much longer than
+	// a second (the machine was suspended, the clock jumped, the process was starved) counts as
+	// one second. A run that merely sat through a pause of the whole VM is not stuck -- and
+	// abandoning a run that is still alive lets its goroutines run into the next run's bubble.
+	stuck := false
+	for observed := time.Duration(0); !stuck; {
+		look := time.Now()
+		select {
+		case <-finished:
+		case <-time.After(time.Second):
+			d := time.Since(look)
+			if d > 2*time.Second {
+				d = time.Second
+			}
+			if observed += d; observed >= stuckLimit {
+				stuck = true
+			}
+			continue
+		}
+		break
+	}
+	if stuck {
 		out.Stuck = true
 		if stuckDumped.CompareAndSwap(false, true) {
 			buf := make([]byte, 1<<20)
@@ -770,7 +790,12 @@ func watchdog(limit time.Duration) {
 		last := progress.Load()
 		lastChange := time.Now()
 		for {
+			look := time.Now()
 			time.Sleep(2 * time.Second)
+			if time.Since(look) > 6*time.Second {
+				// the machine was suspended or the clock jumped: that is not the run's doing
+				lastChange = lastChange.Add(time.Since(look) - 2*time.Second)
+			}
 			cur := progress.Load()
 			if cur != last {
 				last, lastChange = cur, time.Now()
